@@ -46,13 +46,14 @@ def run(tier, seed, arch="z80", prop="C01", mnemonics=MNEMONICS, atoms_fn=atoms,
     # at one or two values would never reach selectors such as `rst n`, `im n`, `bit n,r`)
     vshapes = [(mn, at) for (mn, at) in probe if any(len(a) > 2 for a in at) and at[[len(a) > 2 for a in at].index(True)][2] == 1]
     spec_lines = []
+    pvalues = list(values) + [0x1002, 0x1050, 0x0FC0]      # (targets near the probe origin: relative jumps)
     for k, (mn, at) in enumerate(vshapes):
-        for j, v in enumerate(values):
+        for j, v in enumerate(pvalues):
             ops = isa.mk_case(rng, mn, [a if len(a) < 3 else (a[0], a[1], v) for a in at], True, 0x1000)["ops"]
             spec_lines.append(f"s{k}_{j}\tspec\t{arch}\t4096\t{mn}\t{ops}\t1")
     spec = C.run_model(spec_lines)
     for k, (mn, at) in enumerate(vshapes):
-        if any(spec.get(f"s{k}_{j}", ["?"])[0] == "OK" for j in range(len(values))):
+        if any(spec.get(f"s{k}_{j}", ["?"])[0] == "OK" for j in range(len(pvalues))):
             live[(mn, tuple((a[0], a[1]) for a in at))] = at
     cases2 = []
     origins = [0, 0x100, 0x7FFE, 0xFFF0] if tier == "thorough" else [0x100, 0xFFF0]
@@ -77,7 +78,7 @@ def run(tier, seed, arch="z80", prop="C01", mnemonics=MNEMONICS, atoms_fn=atoms,
                     cases2.append(isa.mk_case(rng, mn, a3, known, pc))
         if mn in ("jr", "djnz"):
             for known in (True, False):
-                for pc in origins:
+                for pc in origins + [0, 0x7F, 0xFFFD, 0xFFFE]:
                     far = [w + k for w in (0x10000, -0x10000, 0x20000) for k in (-130, -128, -2, 0, 3, 127, 129)]   # in range only modulo 64K
                     for dist in list(range(-131, -124)) + [-2, -1, 0, 1, 2] + list(range(124, 132)) + far + ([d for d in range(-124, 124, 9)] if tier == "thorough" else []):
                         a3 = [(a[0], a[1], pc + 2 + dist) if len(a) > 2 else a for a in at]
